@@ -126,6 +126,7 @@ func c02ReadOnlySpec(rng *rand.Rand, i int) *c02Params {
 func c02RoundSpec(rng *rand.Rand, i int) *c02Params {
 	sp := &SessSpec{NumVB: 1 + rng.Intn(5), Nodes: 1, AckSeed: rng.Int63(), PNow: 1, Backlog: map[int][][]ItemSpec{}, PreStore: map[int][4]uint64{}, Failover: map[int][][2]uint64{}}
 	sp.Backend = []string{"cb", "file", "mem"}[i%3]
+	lastSeq := map[int]uint64{}
 	for vb := 0; vb < sp.NumVB; vb++ {
 		// session 1 streams synthetic events carrying extreme seqno / snapshot / vbuuid values
 		sp.Failover[vb] = [][2]uint64{{randU64(rng) | 1, 0}}
@@ -145,6 +146,7 @@ func c02RoundSpec(rng *rand.Rand, i int) *c02Params {
 			sn = append(sn, ItemSpec{K: "m", Key: []byte(fmt.Sprintf("k%d", k)), Seq: base + uint64(k)})
 		}
 		sp.Backlog[vb] = [][]ItemSpec{sn}
+		lastSeq[vb] = base + uint64(n) - 1
 		if sp.Backend == "file" || rng.Intn(2) == 0 {
 			// a previous, numerically longer checkpoint (below the first event)
 			sp.PreStore[vb] = [4]uint64{^uint64(0) - uint64(rng.Intn(9)), base - 1, base - 1, base - 1}
@@ -154,6 +156,13 @@ func c02RoundSpec(rng *rand.Rand, i int) *c02Params {
 		}
 	}
 	sp.Steps = []Step{{Op: "barrier"}, {Op: "check"}}
+	if sp.NumVB >= 2 && rng.Intn(2) == 0 {
+		// a second save in which only one vBucket has something new: the others must keep what the first save stored
+		vb := rng.Intn(sp.NumVB)
+		if lastSeq[vb] < ^uint64(0)-4 {
+			sp.Steps = append(sp.Steps, Step{Op: "append", VB: vb, Items: []ItemSpec{{K: "m", Key: []byte("later"), Seq: lastSeq[vb] + 1}}}, Step{Op: "barrier"}, Step{Op: "check"})
+		}
+	}
 	return &c02Params{Spec: sp, Round: true}
 }
 
@@ -300,7 +309,7 @@ func init() {
 				// session 2 from what session 1 stored
 				drv.NoteFlush("session2-start")
 				st := map[int]tuple{}
-				for vb, t := range tr.Checks[0].Store {
+				for vb, t := range tr.Checks[len(tr.Checks)-1].Store {
 					st[vb] = tuple{t[0], t[1], t[2], t[3]}
 				}
 				// what session 1 tracked last
